@@ -1080,7 +1080,8 @@ PendingScripts ==
          : t \in {u \in DOMAIN tasks : tasks[u].st = "live"}}
 ScriptTasksAlive == {t \in DOMAIN tasks : tasks[t].st = "live" /\ tasks[t].script} \cup PendingScripts
 
-\* C13: the operation values that may still exist: one in every request the shell holds, one in every
+\* C13: the operation values that may still exist (an upper bound: a tree that lets go of them earlier is
+\* fine, one that keeps more is holding on to work that is over): one in every request the shell holds, one in every
 \* request or notification a command carries that a combinator holds but has not started, one in every
 \* stream a live task has made and not polled yet (the operation travels with the first poll)
 RECURSIVE OpsIn(_)
